@@ -90,13 +90,7 @@ pub(crate) fn decode_internal<R: Read, S: Borrow<Schema>>(
                     1u8 => Ok(Value::Boolean(true)),
                     _ => Err(Details::BoolValue(buf[0]).into()),
                 },
-                Err(io_err) => {
-                    if let ErrorKind::UnexpectedEof = io_err.kind() {
-                        Ok(Value::Null)
-                    } else {
-                        Err(Details::ReadBoolean(io_err).into())
-                    }
-                }
+                Err(io_err) => Err(Details::ReadBoolean(io_err).into()),
             }
         }
         Schema::Decimal(DecimalSchema { inner, .. }) => match inner {
@@ -216,13 +210,7 @@ pub(crate) fn decode_internal<R: Read, S: Borrow<Schema>>(
                 Ok(_) => Ok(Value::String(
                     String::from_utf8(buf).map_err(Details::ConvertToUtf8)?,
                 )),
-                Err(io_err) => {
-                    if let ErrorKind::UnexpectedEof = io_err.kind() {
-                        Ok(Value::Null)
-                    } else {
-                        Err(Details::ReadString(io_err).into())
-                    }
-                }
+                Err(io_err) => Err(Details::ReadString(io_err).into()),
             }
         }
         Schema::Fixed(FixedSchema { size, .. }) => {
@@ -295,27 +283,18 @@ pub(crate) fn decode_internal<R: Read, S: Borrow<Schema>>(
 
             Ok(Value::Map(items))
         }
-        Schema::Union(inner) => match zag_i64(reader).map_err(Error::into_details) {
-            Ok(index) => {
-                let variants = inner.variants();
-                let variant = variants
-                    .get(usize::try_from(index).map_err(|e| Details::ConvertI64ToUsize(e, index))?)
-                    .ok_or(Details::GetUnionVariant {
-                        index,
-                        num_variants: variants.len(),
-                    })?;
-                let value = decode_internal(variant, names, enclosing_namespace, reader)?;
-                Ok(Value::Union(index as u32, Box::new(value)))
-            }
-            Err(Details::ReadVariableIntegerBytes(io_err)) => {
-                if let ErrorKind::UnexpectedEof = io_err.kind() {
-                    Ok(Value::Union(0, Box::new(Value::Null)))
-                } else {
-                    Err(Details::ReadVariableIntegerBytes(io_err).into())
-                }
-            }
-            Err(io_err) => Err(Error::new(io_err)),
-        },
+        Schema::Union(inner) => {
+            let index = zag_i64(reader)?;
+            let variants = inner.variants();
+            let variant = variants
+                .get(usize::try_from(index).map_err(|e| Details::ConvertI64ToUsize(e, index))?)
+                .ok_or(Details::GetUnionVariant {
+                    index,
+                    num_variants: variants.len(),
+                })?;
+            let value = decode_internal(variant, names, enclosing_namespace, reader)?;
+            Ok(Value::Union(index as u32, Box::new(value)))
+        }
         Schema::Record(RecordSchema { name, fields, .. }) => {
             let fully_qualified_name = name.fully_qualified_name(enclosing_namespace);
             // Benchmarks indicate ~10% improvement using this method.
